@@ -403,6 +403,32 @@ func runC19(r *core.Run) {
 			add(map[string]interface{}{"kind": "nofatal", "class": cl[i]}, hs[i]+" -> "+er[i], "internal-failure:column-names:"+strings.TrimSuffix(f, ";")+":"+failKind(er[i]))
 		}
 		r.Coverage["column_name_statements"] = len(hs)
+		// hostile cell contents through every output format (the renderers of TEXT / BOX / GFM / ORG measure and wrap cells)
+		var cs []string
+		for _, cell := range []string{`'a\rb'`, `'a\r'`, `'\r'`, `'a\r\nb'`, `'a\nb\n'`, `'a\tb'`, `''`, `' '`, `'あい'`, `'é'`, `'\u001b[31mred'`, `'a|b'`, `'\\'`, `'a\r\rb'`, `NULL`, "'\u200b'", "'\ufeff'"} {
+			for _, f := range []string{"CSV", "TSV", "LTSV", "FIXED", "JSON", "JSONL", "GFM", "ORG", "BOX", "TEXT"} {
+				cs = append(cs, fmt.Sprintf("SET @@FORMAT TO %s; SELECT %s AS c, 1 AS d, %s || 'x' AS e;", f, cell, cell))
+			}
+		}
+		cl, er = isolatedExec(r, cs, map[string]string{})
+		for i := range cs {
+			r.Distinct("cell:" + cs[i])
+			f := strings.Fields(cs[i])[3]
+			add(map[string]interface{}{"kind": "nofatal", "class": cl[i]}, cs[i]+" -> "+er[i], "internal-failure:cell-contents:"+strings.TrimSuffix(f, ";")+":"+failKind(er[i]))
+		}
+		r.Coverage["cell_content_statements"] = len(cs)
+		// external commands: what stands in ${..} is a csvq expression - or nothing that is one
+		var xs []string
+		for _, arg := range []string{"${ }", "${/* later */}", "${-- todo\n}", "${}", "${1; 2}", "${@undeclared}", "\"${ }\"", "${SELECT 1}", "${1 +}", "${'a' || 'b'}", "'${ }'", "${${1}}", "${\n}", "${;}"} {
+			xs = append(xs, "$echo "+arg+";", "VAR @a := 1; $echo x "+arg+" ${@a};")
+		}
+		xs = append(xs, "$nosuchcommand_csvq_verif x;", "$;", "$ ;", "$echo;")
+		cl, er = isolatedExec(r, xs, map[string]string{})
+		for i := range xs {
+			r.Distinct("ext:" + xs[i])
+			add(map[string]interface{}{"kind": "nofatal", "class": cl[i]}, xs[i]+" -> "+er[i], "internal-failure:external-command:"+failKind(er[i]))
+		}
+		r.Coverage["external_command_statements"] = len(xs)
 	}
 
 	// ---- (c) boundary arguments of every built-in function and numeric clause ----
